@@ -9,9 +9,9 @@ import (
 )
 
 var (
-	inboundPart  = pbt.Part[Case]{Name: "sched-inbound", Quick: 40000, Thorough: 800000, Gen: genCase(layerInbound), Check: checkScheduled}
-	subgraphPart = pbt.Part[Case]{Name: "sched-subgraph", Quick: 24000, Thorough: 500000, Gen: genCase(layerSubgraph), Check: checkScheduled}
-	bothPart     = pbt.Part[Case]{Name: "sched-both", Quick: 36000, Thorough: 800000, Gen: genCase(layerBoth), Check: checkScheduled}
+	inboundPart  = pbt.Part[Case]{Name: "sched-inbound", Quick: 30000, Thorough: 800000, Gen: genCase(layerInbound), Check: checkScheduled}
+	subgraphPart = pbt.Part[Case]{Name: "sched-subgraph", Quick: 18000, Thorough: 500000, Gen: genCase(layerSubgraph), Check: checkScheduled}
+	bothPart     = pbt.Part[Case]{Name: "sched-both", Quick: 28000, Thorough: 800000, Gen: genCase(layerBoth), Check: checkScheduled}
 )
 
 // TestProp is the entry point the driver runs in every shard.
@@ -43,7 +43,7 @@ func TestProp(t *testing.T) {
 	subgraphPart.Run(r)
 	bothPart.Run(r)
 	runtime.GOMAXPROCS(procs)
-	stressRun(t, r, 5000, 160000)
+	stressRun(t, r, 4000, 160000)
 }
 
 func TestReplay(t *testing.T) { pbt.StdReplay(t, "C11", dispatch()) }
